@@ -182,6 +182,7 @@ class Result:
         self.generated = 0      # states generated (= transitions examined)
         self.distinct = 0       # distinct states
         self.depth = 0
+        self.initial_states = None
         self.tuples = []        # parsed PrintT tuples (lists whose first element is a tag)
         self.invariant_violated = None
         self.error = None
@@ -246,6 +247,9 @@ def run(module, cfg, *, workers=None, env=None, simulate=None, depth=None, seed=
     m = _DEPTH.search(out)
     if m:
         r.depth = int(m.group(1))
+    m = re.search(r"Finished computing initial states: (\d+) distinct state", out)
+    if m:
+        r.initial_states = int(m.group(1))
     for t in _tuples(out):
         try:
             v = parse_tla_value(t)
